@@ -52,9 +52,19 @@ def make_junk(spec):
     return spec
 
 
-def call(entry, payload, ver):
+def call(entry, payload, ver, valid_refs=None):
     import stix2
     from stix2 import registry
+    if valid_refs is not None:
+        # a STIX 2.0 observable on its own (outside an observed-data container): the documented _valid_refs argument names its siblings
+        if entry == "constructor":
+            cls = registry.class_for_type(payload.get("type"), ver, "observables") if isinstance(payload, dict) and isinstance(payload.get("type"), str) else None
+            if cls is None or not all(isinstance(k, str) for k in payload):
+                return None, ValueError("no constructor route for this payload")
+            return core.guarded(cls, _valid_refs=dict(valid_refs), **{k: v for k, v in payload.items() if k != "type"})
+        if entry == "parse-text":
+            return core.guarded(stix2.parse_observable, json.dumps(payload), dict(valid_refs), allow_custom=False, version=ver)
+        return core.guarded(stix2.parse_observable, payload, dict(valid_refs), allow_custom=entry == "parse-custom", version=ver)
     if entry == "parse":
         return core.guarded(stix2.parse, payload, allow_custom=False)
     if entry == "parse-custom":
@@ -155,7 +165,7 @@ def check_case(case):
     desc = core.short(case.get("corruptions") or case.get("junk"), 300) + " on " + core.short(case.get("doc", ""), 300)
     before = registry_snapshot()
     try:
-        res, exc = with_watchdog(lambda: call(entry, payload, ver))
+        res, exc = with_watchdog(lambda: call(entry, payload, ver, case.get("valid_refs")))
     except _Timeout:
         return [("no-termination-within-60s", "%s did not return within 60 s for %s" % (entry, desc))]
     fails = judge(entry, desc, res, exc)
@@ -196,7 +206,10 @@ def run(ctx):
     ctx.rule = ("(a) for every type of both versions, generated valid base objects x every property slot at every depth (incl. slots read "
                 "before cleaning: extensions, type, spec_version, id, objects, custom_properties, definition(_type), container member "
                 "types) x replacement by ~30 JSON junk values of every kind, removal, and added junk keys, 1-5 at a time, through parse "
-                "(strict / permissive / version named / text / file-like), constructors and MemoryStore.add; (b) arbitrary JSON "
+                "(strict / permissive / version named / text / file-like), constructors and MemoryStore.add; (a2) the same base objects x "
+                "well-typed faults from the corruption engine (bounds, vocabularies, reference types, timestamp order, every co-constraint "
+                "broken), and every member of a 2.0 observed-data container also as a standalone observable through parse_observable / the "
+                "class constructor with _valid_refs; (b) arbitrary JSON "
                 "values (st.recursive, STIX-flavoured keys) as the whole input to parse, parse_observable and constructors; (c) "
                 "depth-parameterised nesting 10..5000 as document and inside a property. Each call under a 60 s watchdog; registries and "
                 "stores compared before/after. Non-trivial = input is a dict whose 'type' names a registered class (passes the first gate) "
@@ -246,6 +259,71 @@ def run(ctx):
                      fp=core.fingerprint([ver, doc["type"], pshape, j, entry]))
             ctx.handle(case, fails)
 
+    def well_typed_faults(ver, doc, seed_i, valid_refs=None):
+        """The other kind of bad input: values of the right JSON kind that break a rule (bounds, vocabularies, reference types,
+        timestamp order, every co-constraint) -- they pass cleaning and reach the constraint checks, which run outside the
+        generic wrapping of cleaning failures."""
+        m = M.get(ver)
+        cname = m.class_for_type(doc["type"]) or m.observables.get(doc["type"])
+        if cname is None:
+            return
+        cs = C.corruptions(doc, ver, cname)
+        chosen = [c for c in cs if c["kind"].startswith(("constraint:", "bound:", "vocab:", "tlp:", "fixed:"))]
+        rest = [c for c in cs if c not in chosen and not c["kind"].startswith("kind:")]
+        step = max(1, len(rest) // (20 if ctx.quick else 200))
+        chosen += rest[seed_i % step::step]
+        # rule-agnostic perturbations of well-typed values (the frozen model need not know a rule for the library to check one):
+        # every timestamp moved to either end of time (breaks any ordering with its siblings), every boolean flipped
+        for p, val, d, owner in C.walk(doc, cname, ver):
+            if d["kind"] == "timestamp" and isinstance(val, str):
+                chosen.append({"path": list(p), "op": "set", "kind": "perturb:timestamp-earliest", "value": "0001-01-01T00:00:00.000Z"})
+                chosen.append({"path": list(p), "op": "set", "kind": "perturb:timestamp-latest", "value": "9999-12-31T23:59:59.000Z"})
+            elif d["kind"] == "boolean" and isinstance(val, bool):
+                chosen.append({"path": list(p), "op": "set", "kind": "perturb:boolean-flipped", "value": not val})
+        entries = ["parse_observable", "constructor", "parse-text", "parse-custom"] if valid_refs is not None else ENTRIES
+        for k, c in enumerate(chosen):
+            entry = entries[(seed_i + k) % len(entries)]
+            case = {"ver": ver, "doc": doc, "corruptions": [c], "entry": entry}
+            if valid_refs is not None:
+                case["valid_refs"] = valid_refs
+            fails = check_case(case)
+            if fails is None:
+                continue
+            pshape = ".".join("[i]" if isinstance(x, int) else str(x) for x in c["path"])
+            ctx.note(case, True, ["entry:" + entry, "well-typed-fault:" + c["kind"].split(":")[0], "standalone-2.0-observable" if valid_refs is not None else "in-place"],
+                     fp=core.fingerprint([ver, doc["type"], pshape, c["kind"], entry, valid_refs is not None]))
+            ctx.handle(case, fails)
+
+    def standalone_members(ver, objects, seed_i, only_first=False):
+            refs = {k: o.get("type") for k, o in objects.items() if isinstance(o, dict)}
+            for key, member in list(objects.items())[:1 if only_first else None]:
+                well_typed_faults(ver, member, seed_i, valid_refs=refs)
+                # the junk values on the standalone observable as well (a sample)
+                cname = M.get(ver).observables.get(member.get("type"))
+                if cname:
+                    slots = [p for p, val, d, owner in C.walk(member, cname, ver)]
+                    for k, p in enumerate(slots):
+                        j = (seed_i + k) % len(JUNK_VALUES)
+                        case = {"ver": ver, "doc": member, "valid_refs": refs, "entry": ("parse_observable", "constructor", "parse-text")[k % 3],
+                                "corruptions": [{"path": list(p), "op": "set", "kind": "junk:%d" % j, "value": JUNK_VALUES[j]}]}
+                        fails = check_case(case)
+                        if fails is not None:
+                            ctx.note(case, True, ["standalone-2.0-observable", "entry:" + case["entry"]], fp=core.fingerprint([member["type"], p, j, case["entry"]]))
+                            ctx.handle(case, fails)
+
+    def body_faults(args):
+        ver, doc, seed_i = args
+        if doc["type"] == "bundle":
+            return
+        well_typed_faults(ver, doc, seed_i)
+        if ver == "2.0" and doc["type"] == "observed-data" and isinstance(doc.get("objects"), dict):
+            standalone_members(ver, doc["objects"], seed_i)
+
+    def body_member(args):
+        objects, seed_i = args
+        ctx.cls("standalone-2.0-observable:" + objects["0"]["type"])
+        standalone_members("2.0", objects, seed_i, only_first=True)
+
     for ver_t in types:
         @st.composite
         def strat(draw, ver_t=ver_t):
@@ -257,6 +335,16 @@ def run(ctx):
             doc = draw(G.bundle(ver, opts, min_members=1, max_members=2)) if t == "bundle" else draw(G.valid_object(ver, type_=t, opts=opts))
             return ver, doc, draw(st.integers(0, 10 ** 4))
         core.run_given(ctx, strat(), body, per_type, label="c17-%s-%s" % ver_t, rounds=3)
+        core.run_given(ctx, strat(), body_faults, max(1, per_type // 2) + (3 if ver_t == ("2.0", "observed-data") else 0), label="c17-faults-%s-%s" % ver_t, rounds=3)
+
+    # every STIX 2.0 observable type as a standalone object (with partners for its references), maximal and random shapes
+    partners = ["file", "directory", "ipv4-addr", "artifact", "user-account", "email-addr", "process", "network-traffic", "mac-addr", "autonomous-system"]
+    for t in M.get("2.0").sco_types:
+        for shape in (("maximal", "random") if not ctx.quick else ("maximal",)):
+            opts = dict(OPTS, member_types=[t] + [x for x in partners if x != t])
+            if shape == "maximal":
+                opts["maximal"] = True
+            core.run_given(ctx, st.tuples(G.sco_container("2.0", opts), st.integers(0, 10 ** 4)), body_member, 1 if ctx.quick else 6, label="c17-member-%s-%s" % (t, shape), rounds=2)
 
     # documents of an UNREGISTERED type: dict_to_stix2 inspects their raw `extensions` (new-SDO style extension definitions)
     # before any cleaning.  Finite: slots x junk values x entries enumerated completely.
